@@ -145,7 +145,7 @@ class C04(Prop):
     props_file = "Props/C04.v"
     preamble = ("From Coq Require Import List ZArith QArith.\nImport ListNotations.\n"
                 "From PP Require Import Model.C04.\nOpen Scope Q_scope.\n")
-    n_cases = (16, 30)
+    n_cases = (24, 30)
     design_ref = "DESIGN.md §5 C04"
     level_text = (
         "METHOD-level Coq theorems over any commutative ring plus per-instance certificates. "
